@@ -176,14 +176,20 @@ def locate_fn(linemap, line):
     return None
 
 
+import threading
+EXTRACT_LOCK = threading.Lock()
+
+
 def process_unit(unit, outdir, rlimit):
     """extract + verify + canary; returns result dict (also written to outdir/unit.result.json)."""
     res = {'unit': unit, 'status': 'ok', 'errors': [], 'undecided': [], 'fn_results': {}, 'smt_ms': 0,
            'wall_s': 0.0, 'canary': {}, 'verus_cmd': ''}
     t0 = time.time()
     try:
-        path, report = extract.build_unit(world(unit), unit, outdir)
-        cpath, cnames = extract.build_canary_unit(world(unit), unit, outdir)
+        # the extractor keeps per-world registries in module globals: one extraction at a time (verification runs in parallel)
+        with EXTRACT_LOCK:
+            path, report = extract.build_unit(world(unit), unit, outdir)
+            cpath, cnames = extract.build_canary_unit(world(unit), unit, outdir)
     except extract.ExtractError as e:
         res['status'] = 'undecided'
         res['undecided'].append('extract: %s' % e)
@@ -707,4 +713,13 @@ def run_replay(w):
 
 
 if __name__ == '__main__':
-    sys.exit(main(sys.argv[1:]))
+    try:
+        rc = main(sys.argv[1:])
+    except SystemExit:
+        raise
+    except Exception as e:   # an internal error of the machinery is never an alarm
+        import traceback
+        traceback.print_exc()
+        print('UNDECIDED internal error of the checker: %s' % e)
+        rc = 2
+    sys.exit(rc)
